@@ -289,7 +289,12 @@ func (namespaceManager *NamespaceManager) GetPrefixMappingForExpansion(uriExpans
 func (namespaceManager *NamespaceManager) GetPrefixToExpansionMap() (result map[string]string) {
 	verifhook.Acquire(namespaceManager.store.database, "ns.lock", namespaceManager)
 	namespaceManager.lock.Lock()
-	result = namespaceManager.prefixToExpansionMapping
+	// hand out a copy: callers iterate and serialise the map without holding the lock while
+	// AssertPrefixMappingForExpansion adds entries to the live one
+	result = make(map[string]string, len(namespaceManager.prefixToExpansionMapping))
+	for k, v := range namespaceManager.prefixToExpansionMapping {
+		result[k] = v
+	}
 	namespaceManager.lock.Unlock()
 	verifhook.Release(namespaceManager.store.database, "ns.lock", namespaceManager)
 	return
